@@ -301,6 +301,12 @@ def coq_first_error(logtxt):
     return None
 
 
+def coq_errors(logtxt):
+    """every (file, line, message) Coq error of a make log"""
+    return [(m.group(1), int(m.group(2)), m.group(3).strip()[:2000]) for m in
+            re.finditer(r'File "\./([^"]+)", line (\d+), characters [^\n]*\n(Error:.*?)(?:\n\n|\nmake|\Z)', logtxt, re.S)]
+
+
 def enclosing_statement(vfile, line):
     """name of the Lemma/Theorem/Example/Definition enclosing a line"""
     try:
